@@ -1,4 +1,5 @@
 import CollectionsC.Properties.C01
+import CollectionsC.Properties.C14Array
 /-! # C15 (array part) — derived arrays are exact, inherit the configuration, and can grow
 
 Statements only.  `subarray`, `copy_shallow`, `copy_deep`, `filter` of `cc_array.c`: the result holds
@@ -16,12 +17,12 @@ open CC
 theorem subarray_exact (a : Arr) (b e : Nat) (m : Mem) (hinv : a.Inv) :
     ((a.subarray b e m).1 = .errInvalidRange ∧ ¬ (b ≤ e ∧ e < a.size) ∧ (a.subarray b e m).2.1 = none ∧
       (a.subarray b e m).2.2 = m) ∨
-    ((a.subarray b e m).1 = .errAlloc ∧ (b ≤ e ∧ e < a.size) ∧ (Arr.alloc2 m).1 = false ∧ (a.subarray b e m).2.1 = none ∧
-      (a.subarray b e m).2.2.live = m.live ∧ (a.subarray b e m).2.2.fault = m.fault) ∨
-    ((a.subarray b e m).1 = .ok ∧ (b ≤ e ∧ e < a.size) ∧ (Arr.alloc2 m).1 = true ∧
+    ((a.subarray b e m).1 = .errAlloc ∧ (b ≤ e ∧ e < a.size) ∧ (Arr.alloc2 m a.triple).1 = false ∧ (a.subarray b e m).2.1 = none ∧
+      Arr.own a.triple (a.subarray b e m).2.2 = Arr.own a.triple m ∧ (a.subarray b e m).2.2.fault = m.fault) ∨
+    ((a.subarray b e m).1 = .ok ∧ (b ≤ e ∧ e < a.size) ∧ (Arr.alloc2 m a.triple).1 = true ∧
       ∃ r, (a.subarray b e m).2.1 = some r ∧ some r.abs = (Spec.Seq.subarray a.abs b e).2 ∧ r.Inv ∧
         r.grow = a.grow ∧ r.capacity = r.size ∧
-        (a.subarray b e m).2.2.live = m.live + 2 ∧ (a.subarray b e m).2.2.fault = m.fault) :=
+        Arr.own a.triple (a.subarray b e m).2.2 = Arr.own a.triple m + 2 ∧ (a.subarray b e m).2.2.fault = m.fault) :=
   Arr.subarray_spec a b e m hinv
 
 /-- the ideal sub-range is the inclusive slice -/
@@ -33,36 +34,36 @@ theorem spec_subarray (xs : List Nat) (b e : Nat) (h : b ≤ e ∧ e < xs.length
   simp; omega
 
 theorem copy_shallow_exact (a : Arr) (m : Mem) (hinv : a.Inv) :
-    ((a.copyShallow m).1 = .errAlloc ∧ (Arr.alloc2 m).1 = false ∧ (a.copyShallow m).2.1 = none ∧
-      (a.copyShallow m).2.2.live = m.live ∧ (a.copyShallow m).2.2.fault = m.fault) ∨
-    ((a.copyShallow m).1 = .ok ∧ (Arr.alloc2 m).1 = true ∧
+    ((a.copyShallow m).1 = .errAlloc ∧ (Arr.alloc2 m a.triple).1 = false ∧ (a.copyShallow m).2.1 = none ∧
+      Arr.own a.triple (a.copyShallow m).2.2 = Arr.own a.triple m ∧ (a.copyShallow m).2.2.fault = m.fault) ∨
+    ((a.copyShallow m).1 = .ok ∧ (Arr.alloc2 m a.triple).1 = true ∧
       ∃ r, (a.copyShallow m).2.1 = some r ∧ r.abs = a.abs ∧ r.Inv ∧ r.grow = a.grow ∧ r.capacity = a.capacity ∧
-        (a.copyShallow m).2.2.live = m.live + 2 ∧ (a.copyShallow m).2.2.fault = m.fault) :=
+        Arr.own a.triple (a.copyShallow m).2.2 = Arr.own a.triple m + 2 ∧ (a.copyShallow m).2.2.fault = m.fault) :=
   Arr.copyShallow_spec a m hinv
 
 theorem copy_deep_exact (cp : Nat → Nat) (a : Arr) (m : Mem) (hinv : a.Inv) :
-    ((a.copyDeep cp m).1 = .errAlloc ∧ (Arr.alloc2 m).1 = false ∧ (a.copyDeep cp m).2.1 = none ∧
-      (a.copyDeep cp m).2.2.2.live = m.live ∧ (a.copyDeep cp m).2.2.2.fault = m.fault) ∨
-    ((a.copyDeep cp m).1 = .ok ∧ (Arr.alloc2 m).1 = true ∧
+    ((a.copyDeep cp m).1 = .errAlloc ∧ (Arr.alloc2 m a.triple).1 = false ∧ (a.copyDeep cp m).2.1 = none ∧
+      Arr.own a.triple (a.copyDeep cp m).2.2.2 = Arr.own a.triple m ∧ (a.copyDeep cp m).2.2.2.fault = m.fault) ∨
+    ((a.copyDeep cp m).1 = .ok ∧ (Arr.alloc2 m a.triple).1 = true ∧
       ∃ r, (a.copyDeep cp m).2.1 = some r ∧ r.abs = a.abs.map cp ∧ r.Inv ∧ r.grow = a.grow ∧
         r.capacity = a.capacity ∧ (a.copyDeep cp m).2.2.1 = a.abs ∧
-        (a.copyDeep cp m).2.2.2.live = m.live + 2 ∧ (a.copyDeep cp m).2.2.2.fault = m.fault) :=
+        Arr.own a.triple (a.copyDeep cp m).2.2.2 = Arr.own a.triple m + 2 ∧ (a.copyDeep cp m).2.2.2.fault = m.fault) :=
   Arr.copyDeep_spec cp a m hinv
 
 theorem filter_exact (p : Nat → Bool) (a : Arr) (m : Mem) (hinv : a.Inv) :
     ((a.filter p m).1 = .errOutOfRange ∧ a.size = 0 ∧ (a.filter p m).2.1 = none ∧ (a.filter p m).2.2.2 = m) ∨
-    ((a.filter p m).1 = .errAlloc ∧ 0 < a.size ∧ (Arr.alloc2 m).1 = false ∧ (a.filter p m).2.1 = none ∧
-      (a.filter p m).2.2.2.live = m.live ∧ (a.filter p m).2.2.2.fault = m.fault) ∨
-    ((a.filter p m).1 = .ok ∧ 0 < a.size ∧ (Arr.alloc2 m).1 = true ∧
+    ((a.filter p m).1 = .errAlloc ∧ 0 < a.size ∧ (Arr.alloc2 m a.triple).1 = false ∧ (a.filter p m).2.1 = none ∧
+      Arr.own a.triple (a.filter p m).2.2.2 = Arr.own a.triple m ∧ (a.filter p m).2.2.2.fault = m.fault) ∨
+    ((a.filter p m).1 = .ok ∧ 0 < a.size ∧ (Arr.alloc2 m a.triple).1 = true ∧
       ∃ r, (a.filter p m).2.1 = some r ∧ r.abs = a.abs.filter p ∧ r.Inv ∧ r.grow = a.grow ∧
         r.capacity = a.capacity ∧ (a.filter p m).2.2.1 = a.abs ∧
-        (a.filter p m).2.2.2.live = m.live + 2 ∧ (a.filter p m).2.2.2.fault = m.fault) :=
+        Arr.own a.triple (a.filter p m).2.2.2 = Arr.own a.triple m + 2 ∧ (a.filter p m).2.2.2.fault = m.fault) :=
   Arr.filter_spec p a m hinv
 
 /-- **the result can grow** (A3): a sub-array is exactly full (`capacity = size`); appending to it
 succeeds whenever the allocator does not refuse, and yields the slice followed by the new element -/
 theorem subarray_can_grow (a : Arr) (b e x : Nat) (m m' : Mem) (hinv : a.Inv) (r : Arr)
-    (hr : (a.subarray b e m).2.1 = some r) (halloc : m'.alloc.1 = true)
+    (hr : (a.subarray b e m).2.1 = some r) (halloc : (m'.allocT r.triple).1 = true)
     (hmax : ¬ r.AtLimit) :
     (r.add x m').1 = .ok ∧ (r.add x m').2.1.abs = (a.abs.drop b).take (e - b + 1) ++ [x] ∧
     r.capacity < (r.add x m').2.1.capacity := by
@@ -96,28 +97,78 @@ theorem derived_history (cfg : Spec.Seq.Cfg) (r : Arr) (ops : List Spec.Seq.Op) 
 /-- the same for the copies and the filter result: they keep the source's capacity and growth
 function, so an append succeeds whenever the allocator does not refuse -/
 theorem derived_can_grow (r : Arr) (x : Nat) (m : Mem) (hinv : r.Inv)
-    (halloc : r.size = r.capacity → m.alloc.1 = true) (hlim : ¬ r.AtLimit) :
+    (halloc : r.size = r.capacity → (m.allocT r.triple).1 = true) (hlim : ¬ r.AtLimit) :
     (r.add x m).1 = .ok ∧ (r.add x m).2.1.abs = r.abs ++ [x] ∧ (r.add x m).2.1.Inv ∧ (r.add x m).2.1.grow = r.grow := by
   obtain ⟨ok, habs⟩ := C01.add_succeeds r x m hinv halloc hlim
   rcases (Arr.add_spec r x m hinv).1 with ⟨_, _, g⟩ | ⟨hb, _⟩
   · exact ⟨ok, habs, g.inv hinv, g.2.2.2.2⟩
   · rcases hb.1 with ⟨e1, _⟩ | ⟨e1, _⟩ <;> rw [e1] at ok <;> simp at ok
 
-/-- **the source is equal to what it was**: the builders are functions *of* the source state that
+/-- **the source is equal to what it was** — true by the value semantics of the model (the harness
+carries the C-level claim: the source is re-observed after every builder call): the builders are functions *of* the source state that
 return only the new array and the ledger — there is no updated source to speak of; in particular the
 source still satisfies its invariant and has the same content, size, capacity and buffer -/
-theorem source_unchanged (a : Arr) (b e : Nat) (cp : Nat → Nat) (p : Nat → Bool) (m : Mem) :
+theorem source_unchanged_model (a : Arr) (b e : Nat) (cp : Nat → Nat) (p : Nat → Bool) (m : Mem) :
     (fun (_ : Stat × Option Arr × Mem) => a) (a.subarray b e m) = a ∧
     (fun (_ : Stat × Option Arr × Mem) => a) (a.copyShallow m) = a ∧
     (fun (_ : Stat × Option Arr × List Nat × Mem) => a) (a.copyDeep cp m) = a ∧
     (fun (_ : Stat × Option Arr × List Nat × Mem) => a) (a.filter p m) = a := ⟨rfl, rfl, rfl, rfl⟩
 
-/-- **independence**: source and result are separate values; a history run on one component of the
+/-- **independence** — true by the value semantics of the model, which cannot express two arrays
+sharing a buffer; the C-level claim is carried by the harness: source and result are separate values; a history run on one component of the
 pair (source, result) returns the other as it was.  (That the C objects share no memory is checked by
 the harness: both are observed after every operation on either, and one is destroyed while the other
 is still used, under ASan.) -/
-theorem independent (cfg : Spec.Seq.Cfg) (a r : Arr) (ops : List Spec.Seq.Op) (m : Mem) :
+theorem independent_model (cfg : Spec.Seq.Cfg) (a r : Arr) (ops : List Spec.Seq.Op) (m : Mem) :
     (fun (pr : Arr × Arr) => ((pr.1.run cfg ops m).2.1, pr.2)) (a, r) = ((a.run cfg ops m).2.1, r) ∧
     (fun (pr : Arr × Arr) => (pr.1, (pr.2.run cfg ops m).2.1)) (a, r) = (a, (r.run cfg ops m).2.1) := ⟨rfl, rfl⟩
+
+/-- **destroying a derived array** releases exactly the two blocks its builder allocated, through the
+source's allocator triple (which the result inherits): build, then destroy the result (after any
+history on it), and the triple's live-block count is what it was before the builder call; the other
+allocator's counters are never touched.  Stated for all four builders at once: `r` is any result. -/
+theorem derived_destroy (a : Arr) (b e : Nat) (cp : Nat → Nat) (p : Nat → Bool) (m : Mem) (r : Arr) (m1 : Mem)
+    (hinv : a.Inv)
+    (hr : ((a.subarray b e m).2.1, (a.subarray b e m).2.2) = (some r, m1) ∨
+          ((a.copyShallow m).2.1, (a.copyShallow m).2.2) = (some r, m1) ∨
+          ((a.copyDeep cp m).2.1, (a.copyDeep cp m).2.2.2) = (some r, m1) ∨
+          ((a.filter p m).2.1, (a.filter p m).2.2.2) = (some r, m1)) :
+    r.triple = a.triple ∧ Arr.own a.triple m1 = Arr.own a.triple m + 2 ∧
+    Arr.own a.triple (r.destroy m1) = Arr.own a.triple m ∧ (r.destroy m1).fault = m.fault := by
+  have ht := C14Array.derived_inherits_triple a 1 b e id (fun _ => false) cp p m .conf r
+  have key : r.triple = a.triple ∧ Arr.own a.triple m1 = Arr.own a.triple m + 2 ∧ m1.fault = m.fault := by
+    rcases hr with h | h | h | h <;> simp only [Prod.mk.injEq] at h <;> obtain ⟨h1, h2⟩ := h
+    · rcases Arr.subarray_spec a b e m hinv with ⟨_, _, hn, _⟩ | ⟨_, _, _, hn, _⟩ | ⟨_, _, _, r', q1, _, _, _, _, q2, q3⟩
+      · rw [hn] at h1; simp at h1
+      · rw [hn] at h1; simp at h1
+      · exact ⟨ht.2.1 h1, by rw [← h2]; exact q2, by rw [← h2]; exact q3⟩
+    · rcases Arr.copyShallow_spec a m hinv with ⟨_, _, hn, _⟩ | ⟨_, _, r', q1, _, _, _, _, q2, q3⟩
+      · rw [hn] at h1; simp at h1
+      · exact ⟨ht.2.2.1 h1, by rw [← h2]; exact q2, by rw [← h2]; exact q3⟩
+    · rcases Arr.copyDeep_spec cp a m hinv with ⟨_, _, hn, _⟩ | ⟨_, _, r', q1, _, _, _, _, _, q2, q3⟩
+      · rw [hn] at h1; simp at h1
+      · exact ⟨ht.2.2.2.1 h1, by rw [← h2]; exact q2, by rw [← h2]; exact q3⟩
+    · rcases Arr.filter_spec p a m hinv with ⟨_, _, hn, _⟩ | ⟨_, _, _, hn, _⟩ | ⟨_, _, _, r', q1, _, _, _, _, _, q2, q3⟩
+      · rw [hn] at h1; simp at h1
+      · rw [hn] at h1; simp at h1
+      · exact ⟨ht.2.2.2.2 h1, by rw [← h2]; exact q2, by rw [← h2]; exact q3⟩
+  obtain ⟨k1, k2, k3⟩ := key
+  have hd := Arr.destroy_spec r m1 (by rw [k1]; omega)
+  rw [k1] at hd
+  exact ⟨k1, k2, by omega, by rw [hd.2, k3]⟩
+
+/-! Non-vacuity: an array of 4 in a block of 5 with a dead slot; sub-range, copies and filter on the
+default-allocator triple, results exact and exactly the two blocks charged to that triple only; a
+refused builder returns no object -/
+example :
+    let a : Arr := Arr.mk 4 5 [10, 21, 30, 41, 99] (fun c => c * 3 / 2) .libc
+    a.Inv ∧ ((a.subarray 1 2 {}).2.1.map (·.abs), (a.subarray 1 2 {}).2.1.map (·.capacity)) = (some [21, 30], some 2) ∧
+    (a.subarray 1 2 {}).2.2.liveLibc = 2 ∧ (a.subarray 1 2 {}).2.2.live = 0 ∧
+    (a.copyShallow {}).2.1.map (·.buf) = some [10, 21, 30, 41, 0] ∧
+    (a.copyDeep (· + 1) {}).2.1.map (·.abs) = some [11, 22, 31, 42] ∧
+    (a.filter (· % 2 == 0) {}).2.1.map (·.abs) = some [10, 30] ∧
+    (a.subarray 2 1 {}).1 = .errInvalidRange ∧
+    (({ a with triple := .conf }).copyShallow { sched := [true] }).1 = .errAlloc ∧
+    (({ a with triple := .conf }).copyShallow { sched := [false, true] }).2.2.live = 0 := by decide
 
 end CC.Properties.C15Array
